@@ -79,6 +79,11 @@ func init() {
 			if r.C.Intn(8) == 0 {
 				return runGenesisChild(r)
 			}
+			if r.C.Intn(6) == 0 {
+				// the builder half: a block the builder emits satisfies the same header rules (gaps for empty and
+				// non-empty blocks) that verification enforces
+				return buildScenario(r, "C11", 0.2)
+			}
 			return runBlock(r, focus{prop: "C11", headerFaults: 0.6, txFaults: 0.02, permFaults: 0.05, failOps: 0.05, tightUnits: 0.0, bigCosts: 0.0, dupTx: 0.02, maxTxs: 3})
 		}})
 }
